@@ -179,6 +179,53 @@ def containers(prop, res, binary, label, seed, nseq, nops, valgrind=False):
     return stats, len(reports)
 
 
+def container_fuzz(prop, res, seed, seconds):
+    """Coverage-guided container sequences: libFuzzer (clang -fsanitize=fuzzer,address,undefined)
+    mutates the choice tape of the container driver; the std-container shadow and the sanitizers
+    judge every execution. Coverage is that of the C++ header templates and the driver."""
+    import glob
+    import shutil
+    binary = vlib.build_cpp_driver("container_driver", "fuzz")
+    work = os.path.join(vlib.TARGET, "fuzz-work", "C17-containers")
+    art = os.path.join(work, "artifacts")
+    corpus = os.path.join(vlib.TARGET, "fuzz-corpus", "C17-containers")
+    shutil.rmtree(art, ignore_errors=True)
+    for d in (work, art, corpus):
+        os.makedirs(d, exist_ok=True)
+    cmd = [binary, corpus, f"-fork={vlib.JOBS}", f"-max_total_time={seconds}", "-timeout=60", "-rss_limit_mb=4096", "-len_control=0", "-max_len=2048",
+           "-ignore_crashes=1", "-ignore_timeouts=1", "-ignore_ooms=1", f"-artifact_prefix={art}/", f"-seed={seed}"]
+    env = san_env()
+    env["ASAN_OPTIONS"] += ":abort_on_error=1"
+    code, logp, dt = vlib.run_logged(cmd, f"{prop}-containers-fuzz.log", env=env, cwd=work, timeout=seconds + 1800)
+    txt = open(logp, errors="replace").read()
+    cov = ft = corp = execs = 0
+    for m in re.finditer(r"#(\d+): cov: (\d+) ft: (\d+) corp: (\d+)", txt):
+        execs, cov, ft, corp = max(execs, int(m.group(1))), max(cov, int(m.group(2))), max(ft, int(m.group(3))), max(corp, int(m.group(4)))
+    reports = 0
+    for f in sorted(glob.glob(os.path.join(art, "crash-*")) + glob.glob(os.path.join(art, "leak-*")))[:8]:
+        # judged again alone: the binary run on exactly this input
+        rp = os.path.join(vlib.REPLAY, prop)
+        os.makedirs(rp, exist_ok=True)
+        rp = os.path.join(rp, "containers-fuzz-" + os.path.basename(f))
+        shutil.copy(f, rp)
+        p = subprocess.run([binary, rp], stdout=subprocess.PIPE, stderr=subprocess.STDOUT, env=env, text=True, errors="replace", timeout=300)
+        if p.returncode == 0:
+            continue
+        one = os.path.join(vlib.LOGS, f"{prop}-containers-fuzz-{os.path.basename(f)[:24]}.log")
+        open(one, "w").write(p.stdout)
+        kinds = sanitizer_kinds(one)
+        mm = re.search(r"MISMATCH (.*)", p.stdout)
+        if mm:
+            kinds = ["container contents differ from the std shadow: " + mm.group(1)[:60]] + [k for k in kinds if not k.startswith("abort")]
+        for k in kinds or [f"container driver dies on a fuzzer input (exit {p.returncode})"]:
+            reports += 1
+            res["violations"].append(dict(kind=k, detail=f"containers-fuzz: `{os.path.basename(binary)} {rp}`; see {one}", replay=rp))
+    if execs == 0:
+        res["inconclusive"].append(f"containers-fuzz: no execution, see {logp}")
+    res["jobs"].append(dict(label="containers-fuzz", code=code, wall_s=dt, cmd=" ".join(os.path.basename(c) for c in cmd[:4]), evaluations=execs, sanitizer_reports=reports))
+    return dict(executions=execs, coverage_edges=cov, coverage_features=ft, corpus_inputs=corp, seconds=seconds), reports
+
+
 def ffi_miri(prop, res, tier, seed):
     n = 40 if tier == "quick" else 600
     # validity-of-reference and aliasing-model checks are off: C17 lists leaks, double frees,
@@ -223,6 +270,11 @@ def run(prop, tier, seed, job, res):
     cstats, creports = containers(prop, res, cont_asan, "containers-asan", seed, 300 if quick else 6000, 300)
     vstats, vreports = containers(prop, res, cont_plain, "containers-valgrind", seed + 1, 6 if quick else 120, 200, valgrind=True)
     mstats = ffi_miri(prop, res, tier, seed)
+    only = os.environ.get("VERIF_ONLY_JOBS", "")
+    if not quick or "containers-fuzz" in only:
+        fstats, freports = container_fuzz(prop, res, seed, int(os.environ.get("VERIF_FUZZ_SECONDS", "120")))
+        res["extra"]["container_fuzz"] = fstats
+        creports += freports
     res["extra"].update(
         programs=programs,
         disagreements_checked=programs,
@@ -244,6 +296,10 @@ def run(prop, tier, seed, job, res):
 
 
 def replay(path):
+    if not path.endswith(".json"):
+        # an input kept by the coverage-guided container driver
+        binary = vlib.build_cpp_driver("container_driver", "fuzz")
+        return subprocess.call([binary, path], env=san_env())
     d = json.load(open(path))
     binary = vlib.build_cpp_driver("diff_driver", "asan")
     code, lines, logp = run_driver(binary, d["export"], "C17-replay.log")
